@@ -228,6 +228,9 @@ func runSRelay(rc *sk.RunCtx, focus string) {
 			if nd.alive && !w.checkRelayRecords(nd, name) {
 				return
 			}
+			if nd.alive && focus == "C15" && !w.checkRelayCandidates(nd, name) {
+				return
+			}
 		}
 	}
 
@@ -254,7 +257,11 @@ func runSRelay(rc *sk.RunCtx, focus string) {
 	for k := 0; k < nbyz; k++ {
 		at := 3*time.Second + time.Duration(tp.Choose(int((horizon-3*time.Second)/time.Millisecond)))*time.Millisecond
 		if focus == "C15" {
-			mw.at(at, "byzantine-relay", func() { w.byzantineRelay() })
+			if tp.Chance(1, 3) {
+				mw.at(at, "byzantine-relay-claim", func() { w.byzantineRelayClaim(endpoints) })
+			} else {
+				mw.at(at, "byzantine-relay", func() { w.byzantineRelay() })
+			}
 		} else {
 			kind := tp.Choose(3)
 			mw.at(at, "byzantine-endpoint", func() {
@@ -393,6 +400,60 @@ func (w *srelayWorld) byzantineRelay() {
 		}
 	}
 	// unmodified replays / re-wraps fall under the onTun oracle (identical bytes, once, right destination)
+}
+
+// byzantineRelayClaim: a node X that holds a tunnel to endpoint B plays relay and tells B "A wants to reach you
+// through me" (CreateRelayRequest from=A to=B) — a claim about A that nothing from A backs. B may set up the relay
+// record on ITS tunnel to X (that is what a terminal does for any requester); what B knows about A — A's tunnel,
+// the relays B uses towards A — is A's to change (checkRelayCandidates).
+func (w *srelayWorld) byzantineRelayClaim(endpoints []int) {
+	tp := w.tp
+	B := w.nodes[endpoints[tp.Choose(len(endpoints))]]
+	X := w.nodes[tp.Choose(len(w.nodes))]
+	A := w.nodes[endpoints[tp.Choose(len(endpoints))]]
+	if X == B || A == B || !X.alive || !B.alive {
+		return
+	}
+	hi := X.f.hostMap.QueryVpnAddr(B.vpnAddr())
+	if hi == nil || hi.ConnectionState == nil {
+		return
+	}
+	from := A.vpnAddr()
+	if tp.Chance(1, 6) {
+		from = netip.AddrFrom4([4]byte{10, 128, 0, byte(200 + tp.Choose(20))})
+	}
+	msg := NebulaControl{Type: NebulaControl_CreateRelayRequest, InitiatorRelayIndex: uint32(1 + tp.Choose(1<<20)),
+		RelayFromAddr: netAddrToProtoAddr(from), RelayToAddr: netAddrToProtoAddr(B.vpnAddr())}
+	b, err := msg.Marshal()
+	if err != nil {
+		return
+	}
+	w.rc.Logf("t=%v byzantine relay claim n%d -> n%d: CreateRelayRequest from=%v to=%v", w.now, X.idx, B.idx, from, B.vpnAddr())
+	X.f.SendMessageToHostInfo(header.Control, 0, hi, b, make([]byte, 12), make([]byte, mtu))
+	w.stats["fault.byzantine"]++
+	w.stats["fault.byzantine.relay-claims-peer"]++
+}
+
+// checkRelayCandidates: the relays a node keeps for reaching peer A (hostinfo(A).relayState) are written by
+// handshakes with A only — a handshake packet that A's key authenticates arrived through that relay. Honest
+// handshakes travel through relays that A or the node itself configured (the lighthouse is honest in this family),
+// so any other entry was put there on somebody else's word.
+func (w *srelayWorld) checkRelayCandidates(nd *simNode, ev string) bool {
+	for _, h := range sortedHostInfos(nd.f.hostMap) {
+		A := w.nodeByVpn(h.vpnAddrs[0])
+		if A == nil {
+			continue
+		}
+		allowed := append(append([]string(nil), nd.spec.relays...), A.spec.relays...)
+		for _, r := range h.relayState.CopyRelayIps() {
+			w.stats["probe.relay_candidates_checked"]++
+			if !slices.Contains(allowed, r.String()) {
+				w.fail("C15", "relay-candidate-on-relays-word", "node %d after %s: its tunnel %d to %v lists %v as a relay towards that peer, which neither of the two configured (%v): no handshake of the peer came through it", nd.idx, ev, h.localIndexId, h.vpnAddrs[0], r, allowed)
+				return false
+			}
+		}
+	}
+	return true
 }
 
 // tunnelDigest renders the receive-side state of one tunnel: recorded remote, liveness flag, replay window,
